@@ -203,6 +203,7 @@ def register_volume_intersects(reg):
 
     def setup(I, env):
         eng = I.eng
+        MS.world(I).abstract_norms = True  # distances are only compared, never opened up
         K = dict(log=[], sc=eng.fresh_bool("fcl_surface_collision"), overlap=eng.fresh_bool("overlap"), empty=eng.fresh_bool("boolean_intersection_is_empty"))
         A, B = mk_volume(I, "self", K), mk_volume(I, "other", K)
         scaled = eng.choose(3, "precomputed shapes: both / only self / none")
@@ -304,6 +305,7 @@ def register_contains_object(reg):
 
     def setup(I, env):
         eng = I.eng
+        MS.world(I).abstract_norms = True  # distances are only compared, never opened up
         K = dict(log=[], inside=eng.fresh_bool("object_inside_region"))
         ins = K["inside"]
         S = PObj(RC("MeshVolumeRegion"), tag="self")
